@@ -239,7 +239,36 @@ def c_create_nested(c, s_, a, k):
     return node
 
 
+def h_del(rec, comps):
+    parent = rec_at(rec, comps[:-1])
+    if is_ns(parent) and mark(comps[-1]) in parent.attrs["__dict__"]:
+        return parent.attrs["__dict__"].pop(mark(comps[-1]))
+    return MISSING
+
+
+def c_pop(c, s_, a, k):
+    key = a[0]
+    default = a[1] if len(a) > 1 else k.get("default")
+    if not valid_key(key):
+        raise nskeyerror("invalid key")
+    v = h_del(s_, key.split("."))
+    return default if v is MISSING else v
+
+
+def c_get(c, s_, a, k):
+    key = a[0]
+    default = a[1] if len(a) > 1 else k.get("default")
+    v = rec_at(s_, key.split(".")) if valid_key(key) else MISSING
+    return default if v is MISSING else v
+
+
+def c_delitem(c, s_, a, k):
+    if not valid_key(a[0]) or h_del(s_, a[0].split(".")) is MISSING:
+        raise PyRaise(ExcVal("KeyError", (a[0],), origin="Namespace-contract"))
+
+
 NS_METHODS = {
+    "pop": c_pop, "get": c_get, "__delitem__": c_delitem,
     "__getitem__": c_getitem, "__setitem__": c_setitem, "__contains__": c_contains, "__setattr__": c_setattr, "__getattr__": c_getattr,
     "__hasattr__": lambda c, s_, a, k: a[0] in s_.attrs["__dict__"] or a[0] in CLASH,
     "__bool__": lambda c, s_, a, k: bool(s_.attrs["__dict__"]),
